@@ -1,13 +1,14 @@
 #!/usr/bin/env python3
 """Every catalogued harmless refactor (benign.py) on a scratch copy: the check must not raise an alarm.
-usage: .venv/bin/python benign_test.py [PID ...]"""
+usage: .venv/bin/python benign_test.py [PID ...] [--from=N]"""
 import os, shutil, subprocess, sys, tempfile
 HERE = os.path.dirname(os.path.abspath(__file__))
 sys.path.insert(0, HERE)
 from benign import BENIGN  # noqa
-want = set(sys.argv[1:])
+want = set(a for a in sys.argv[1:] if not a.startswith('--'))
+first = int(([a[7:] for a in sys.argv[1:] if a.startswith('--from=')] or ['0'])[0])
 bad = 0
-for m in BENIGN:
+for m in BENIGN[first:]:
     if want and m['property'] not in want:
         continue
     d = tempfile.mkdtemp(prefix='pyvc-ben-', dir='/var/tmp')
@@ -29,5 +30,5 @@ for m in BENIGN:
         print("%-8s %-4s %-60s exit=%d proof-lost/undecided=%d %s" % ('quiet' if ok else 'ALARM', m['property'], m['name'], r.returncode, len(lost), (viol[0][:160] if viol else '')), flush=True)
     finally:
         shutil.rmtree(d, ignore_errors=True)
-print("false alarms: %d / %d" % (bad, len([m for m in BENIGN if not want or m['property'] in want])))
+print("false alarms: %d / %d" % (bad, len([m for m in BENIGN[first:] if not want or m['property'] in want])))
 sys.exit(1 if bad else 0)
